@@ -145,7 +145,7 @@ section wiring
 variable {K : Type} [Add K] [Sub K] [Mul K] [Div K] [Zero K] [One K] [LT K] [DecidableLT K] [NatCast K]
 
 inductive Mode
-  | identity | custom | invSample | invUnbiased
+  | identity | custom | invSample | invUnbiased | unbiasedInv
 deriving Repr, DecidableEq
 
 /-- `…Option(mode_weight, weights)`; the constructor forces `mode = custom` when weights are given -/
@@ -166,6 +166,15 @@ def replaceVec {m : Nat} (p : Vec K m) (eps : K) : Vec K m :=
 /-- `calc_covariance_mat(q, n)` (as in QModel.C19) -/
 def covMat {m : Nat} (q : Vec K m) (n : K) : Mat K m m :=
   Mat.ofFn fun i j => ((if i = j then q.get i else 0) - q.get i * q.get j) / n
+
+/-- the option's mode string -/
+def modeName : Mode → String
+  | .identity => "identity" | .custom => "custom"
+  | .invSample => "inverse_sample_covariance" | .invUnbiased => "inverse_unbiased_covariance"
+  | .unbiasedInv => "unbiased_inverse_covariance"      -- accepted alias of the unbiased covariance mode
+
+/-- the `n` handed to `calc_covariance_mat`: `num_data` (sample covariance) or `num_data - 1` (unbiased) -/
+def covDenom (unbiased : Bool) (n : K) : K := if unbiased then n - 1 else n
 
 /-- the matrix handed to `np.linalg.inv`: `cov[:-1,:-1] + eye(row−1) / num_data**1.5` -/
 def extracted {m : Nat} (cov : Mat K m m) (n32 : K) : Mat K (m - 1) (m - 1) :=
@@ -197,7 +206,7 @@ def weightsByMode {m : Nat} (opt : Opt K m) (Ginvs : List (Mat K (m - 1) (m - 1)
   match opt.mode with
   | .identity => some none
   | .custom => some opt.weights
-  | .invSample | .invUnbiased => some (some (invCovWeights Ginvs))
+  | .invSample | .invUnbiased | .unbiasedInv => some (some (invCovWeights Ginvs))
 
 /-- fields of the generic loss that matter for weighting -/
 structure GenWse (K : Type) (m : Nat) where
@@ -408,6 +417,7 @@ def showWs {m : Nat} (w : Option (List (Mat Rat m m))) : String :=
 def parseMode : String → Option Mode
   | "identity" => some .identity | "custom" => some .custom
   | "inverse_sample_covariance" => some .invSample | "inverse_unbiased_covariance" => some .invUnbiased
+  | "unbiased_inverse_covariance" => some .unbiasedInv
   | _ => none
 
 def parseOptList (s : String) : Option (Option (List Rat)) :=
@@ -457,13 +467,15 @@ def handle (args : List String) : Option String :=
         some (showEs (idx.map fun α => (fastGradHalf ss (ws.map fun l => ⟨l⟩) x α).map fun v => two * v))
       else none
   -- inverse-covariance weight inputs: the matrix handed to numpy's inv
-  | ["extracted", m, q, eps, n, n32] => do
+  | ["extracted", mode, m, q, eps, n, n32] => do
+      let mode ← parseMode mode
+      let unbiased := match mode with | .invUnbiased | .unbiasedInv => true | _ => false
       let m ← parseNat? m
       let q ← mkVec m (← parseList? parseRat? q)
       let eps ← parseRat? eps
       let n ← parseRat? n
       let n32 ← parseRat? n32
-      some s!"ok {showList showRat (matList (extracted (covMat (replaceVec q eps) n) n32))}"
+      some s!"ok {showList showRat (matList (extracted (covMat (replaceVec q eps) (covDenom unbiased n)) n32))}"
   -- weights in force after a sequence of configurations of a fresh object
   | "wiring" :: which :: atol :: m :: grad :: k :: rest => do
       let atol ← parseRat? atol
